@@ -174,8 +174,8 @@ Qed.
 
 (* the frame after an optional slot s has taken tag v *)
 Definition opt_frame (f : frame) (s : argdef) (v : bytes) : frame :=
-  set_arg (match takes_param s v with Some _ => set_curarg f (Some s) | None => f end)
-          (a_name s) (VStr v).
+  del_extra (set_arg (match takes_param s v with Some _ => set_curarg f (Some s) | None => f end)
+                     (a_name s) (VStr v)) (a_name s).
 
 Definition opt_result (f : frame) (s : argdef) (v : bytes) (loaded : list bytes) : cna :=
   match a_extension s with
@@ -471,21 +471,22 @@ Section Correct.
         (* the slot s takes the tag; continuation shared by the three shapes of a_extension *)
         assert (Hcont :
           corr (match takes_param s v with
-                | None => legal_opt fuel opts reqs args loaded (assoc_set (a_name s) (VStr v) (f_args f)) (f_extra f)
+                | None => legal_opt fuel opts reqs args loaded (assoc_set (a_name s) (VStr v) (f_args f))
+                                    (assoc_del (a_name s) (f_extra f))
                 | Some ex =>
                     match args with
-                    | [] => LIncomplete (assoc_set (a_name s) (VStr v) (f_args f)) (f_extra f)
+                    | [] => LIncomplete (assoc_set (a_name s) (VStr v) (f_args f)) (assoc_del (a_name s) (f_extra f))
                     | p :: args'' =>
                         if param_ok ex p
                         then legal_opt fuel opts reqs args'' loaded (assoc_set (a_name s) (VStr v) (f_args f))
-                                       (assoc_set (a_name s) (snd p) (f_extra f))
+                                       (assoc_set (a_name s) (snd p) (assoc_del (a_name s) (f_extra f)))
                         else LReject (Some EBadValue)
                     end
                 end) (feed (opt_frame f s v) args loaded)).
         { destruct Hp as (Hd & Hpos & Hra & Hc). pose proof reqs_pos as Hrp.
           unfold opt_frame. destruct (takes_param s v) as [ex|] eqn:Htp.
           - pose proof (takes_param_extra _ _ _ Htp) as Hex.
-            set (f1 := set_arg (set_curarg f (Some s)) (a_name s) (VStr v)).
+            set (f1 := del_extra (set_arg (set_curarg f (Some s)) (a_name s) (VStr v)) (a_name s)).
             assert (Hd1 : f_def f1 = d) by exact Hd.
             assert (Hlt1 : f_rargs f1 < length reqs) by (cbn; lia).
             destruct args as [|[t' v'] args''].
@@ -498,7 +499,7 @@ Section Correct.
               pose proof (Forall_inv_tail Hsh') as Hsh''.
               apply IH; [cbn [length] in Hlen; lia|auto|].
               repeat split; auto.
-          - set (f1 := set_arg f (a_name s) (VStr v)).
+          - set (f1 := del_extra (set_arg f (a_name s) (VStr v)) (a_name s)).
             change (corr (legal_opt fuel opts reqs args loaded (f_args f1) (f_extra f1))
                          (feed f1 args loaded)).
             apply IH; [lia|auto|]. repeat split; auto. }
